@@ -262,8 +262,8 @@ void prop_scale_sort_diag(Tape &t, Ctx &c) {
         }
         // singular non-zero blocks are outside the documented domain (inverse undefined): skip them
         if (B > 1) {
-            Eigen::MatrixXd E(B, B);
-            for (int p = 0; p < B; ++p) for (int q = 0; q < B; ++q) E(p, q) = VT<V>::at(dv, p, q).real();
+            Eigen::MatrixXcd E(B, B); // complex: a block with integer parts is singular iff its (Gaussian integer) determinant is 0
+            for (int p = 0; p < B; ++p) for (int q = 0; q < B; ++q) E(p, q) = VT<V>::at(dv, p, q);
             if (std::abs(E.determinant()) < 0.5) { c.label("singular-block-skipped"); continue; }
         }
         V prod = dv * iv;
